@@ -327,6 +327,17 @@ pub fn check_request(world: &World, q: &ReqSpec) -> Result<bool, String> {
         if before_n != after_n {
             return Err(format!("after re-normalisation the restored request matches {after_n:?}, original {before_n:?}; json {j}"));
         }
+        // the legacy wire format (older agents): no `path_and_query_v2`; the proxy re-normalises and must match alike
+        if let Ok(Value::Object(mut m)) = serde_json::from_str::<Value>(&j) {
+            if m.remove("path_and_query_v2").is_some() {
+                let legacy_text = Value::Object(m).to_string();
+                let legacy: Request = serde_json::from_str(&legacy_text).map_err(|e| format!("a request in the legacy wire format does not deserialise: {e}: {legacy_text}"))?;
+                let legacy_n = ids_of(&router.match_request(&Request::rebuild_with_config(&config, &legacy)));
+                if legacy_n != before_n {
+                    return Err(format!("the request restored from its legacy-format JSON matches {legacy_n:?} after re-normalisation, the original {before_n:?}; json {legacy_text}"));
+                }
+            }
+        }
         let via_ffi = unsafe { ffi_request_roundtrip(&j) }?;
         if via_ffi != j {
             return Err(format!("C json round trip of the request differs:\n  {j}\n  {via_ffi}"));
